@@ -71,6 +71,7 @@ func (r Requiredness) String() string {
 }
 
 type Field struct {
+	Name    string // name of the Go struct field
 	F       int
 	ID      uint16
 	Type    *Type
@@ -263,6 +264,7 @@ func DoResolveFields(vt reflect.Type) ([]Field, error) {
 
 		// add to result
 		ret = append(ret, Field{
+			Name:    sf.Name,
 			F:       int(sf.Offset),
 			ID:      uint16(id),
 			Type:    pt,
